@@ -136,8 +136,10 @@ where
     P: AsRef<ioPath> + Send + Sync,
 {
     async fn load_policy(&mut self, m: &mut dyn Model) -> Result<()> {
-        self.is_filtered = false;
         self.load_policy_file(m, load_policy_line).await?;
+        // only a load that succeeded delivered the full policy: a failed one
+        // must not unmark an enforcer that still holds a filtered subset
+        self.is_filtered = false;
         Ok(())
     }
 
